@@ -424,8 +424,30 @@ func (d *rtDriver) Run(x *sched.Exec, raw json.RawMessage) json.RawMessage {
 		d.sc = genRoutine(x)
 	}
 	x.OptDouble = true // a grant and a cancellation in one controller step (sched.Exec.Double)
-	// (OptParkUnl stays off: RoutineP reads several logged returns as linearization points; a trial run
-	// with it on raised WaitWrong, CancelNoCause, RerunNoCause and StateLost on the unchanged tree)
+	// The end of a critical section is an extra park point (sched.Exec.ParkUnl executions) for WaitExited
+	// callers only: a waiter can then stop between the section in which it sampled the state and its
+	// select, so that an exit and a cancellation both land there. RoutineP widens a pending
+	// WaitExited's set of admissible results at every state change, so this is sound for it; the logged
+	// return of every other call stays in one step with its critical section (RoutineP relies on that).
+	x.OptParkUnl = true
+	fine := !x.LogSteps && x.ParkUnl
+	if len(x.Sched) > 0 {
+		fine = !x.LogSteps && x.Sched[0] == "!parkunl"
+	}
+	x.Policy = func(a *sched.Actor, kind, site string, obj any) bool {
+		if kind != "unlocked" {
+			return true
+		}
+		if !fine {
+			return false
+		}
+		for _, c := range d.cl {
+			if c.c.Name == a.Name {
+				return c.op == "waitexited" && c.inflight != 0
+			}
+		}
+		return false
+	}
 	if x.LogSteps {
 		// X-level trace validation: Routine.tla models the scripted backoff and bounded 7 ms ticks only
 		d.sc.BoConf, d.sc.BigTick = "", false
@@ -500,7 +522,16 @@ func (d *rtDriver) Run(x *sched.Exec, raw json.RawMessage) json.RawMessage {
 		d.mu.Unlock()
 		for _, c := range d.cl {
 			c := c
-			if c.inflight != 0 && c.cancel != nil && !c.canc && x.Blocked(c.c) {
+			// (normally only while the call is blocked in its select; in fine executions also while the
+			// waiter is parked between its sampling section and the select: the select is then entered
+			// with the cancellation -- and possibly a wake-up -- already there)
+			atUnl := false
+			if a := x.ActorByName(c.c.Name); fine && a != nil {
+				if p := a.Parked(); p != nil && p.Kind == "unlocked" {
+					atUnl = true
+				}
+			}
+			if c.inflight != 0 && c.cancel != nil && !c.canc && (x.Blocked(c.c) || atUnl) {
 				ms = append(ms, sched.Move{Label: "cancel:" + c.c.Name, Do: func() {
 					c.canc = true
 					x.Log(trace.E{"ev": "cancel", "id": c.inflight})
